@@ -16,9 +16,7 @@ def contains_obj(v):
 def causes(E, V, depth=0):
     """Which of the recorded ParseSchema deviations (known_findings.json) can act on this pair: computed from the two
     values only, never from the observed result."""
-    out = set()
-    if isinstance(E, dict) and E and isinstance(V, dict) and not V:
-        out.add("empty-text-object-vs-nonempty-object")
+    out = set()      # (no recorded deviation is left: the '{}' and array-holding-object shapes were repaired in /repo)
     if isinstance(E, dict) and E and isinstance(V, dict) and V:
         for k in E:
             if k in V:
